@@ -8,7 +8,7 @@ case "$P" in
  -R:*) git show "${P#-R:}" | git apply -R || { echo "reverse apply failed"; exit 9; } ;;
  *) git apply "$P" 2>/dev/null || patch -p1 -s --no-backup-if-mismatch < "$P" || { git checkout -- .; echo "apply failed"; exit 9; } ;;
 esac
-cd /verif && ./check "$ID" --tier "$TIER"; rc=$?
+cd ${VERIF_ROOT:-/verif} && ./check "$ID" --tier "$TIER"; rc=$?
 cd /repo && git checkout -- . && git status --porcelain --untracked-files=all | grep -v '^??' ; 
 echo "mutcheck rc=$rc"
 exit $rc
